@@ -85,8 +85,10 @@ def check_config(acc, stage, variant, cur, D, lf, wf, rungs):
         n = 20 * 2 ** j
         m = sim.Model(spec)
         m.elements[0].pwm = D
+        # the ladder is physical: the unit the step is written in rotates over the four time units
+        tu = ['sec', 'ms', 'min', 'hour'][(stage + variant + j + int(wf != 0)) % 4]
         try:
-            m.run([dt, 'sec'], [dt * n, 'sec'])
+            m.run([si.convert(dt, 'TimeInterval', 'sec', tu), tu], [si.convert(dt * n, 'TimeInterval', 'sec', tu), tu])
         except Exception as ex:
             acc.violation(f'C04/run-error/{type(ex).__name__}', 'simulation runs', case, {'exc': repr(ex)[:200], 'rung': j})
             return
